@@ -1,7 +1,7 @@
 (* Extraction of the executable model.  Only ExtrOcamlBasic's directives are in force
    (7 Extract Inductive: bool option unit list prod sumbool sumor; 2 Extract Inlined
    Constant: andb orb).  N, positive and nat are extracted as their inductive datatypes. *)
-From Ructe Require Import Nom Utf8 Compile UniTables Io Md5 Static.
+From Ructe Require Import Nom Utf8 Compile UniTables Io Md5 Static Build.
 Require Extraction ExtrOcamlBasic.
 
 Definition compile_m := compile uni_debug_esc.
@@ -12,5 +12,7 @@ Definition static_name_m := static_name uni_alnum.
 Definition statics_get_m := statics_get.
 Definition rust_ident_m := rust_ident uni_alnum.
 
-Extraction "model.ml" compile_m to_html to_buffer buffer_eq
+Definition run_build_m := run_build uni_debug_esc uni_alnum compile_m.
+
+Extraction "model.ml" run_build_m compile_m to_html to_buffer buffer_eq
   apply_op_m sass_ref_m static_name_m statics_get_m rust_ident_m finish empty_statics checksum_slug md5.
